@@ -56,6 +56,10 @@ def h_assign(c, np, cla):
         raise RuntimeError("harness: table not exactly representable in " + c["table_dtype"])
     if c.get("order") == "F":
         tab = np.asfortranarray(tab)
+    elif c.get("order") == "S":                      # a strided (non-contiguous) view of a larger array
+        big = np.zeros((2 * tab.shape[0], 3 * tab.shape[1]), dtype=tab.dtype)
+        big[::2, 1::3] = tab
+        tab = big[::2, 1::3]
     if c["beta_form"] == "vector":
         b64 = np.array(c["beta"], dtype=np.float64) / (2.0 ** s)
         beta = b64.astype(getattr(np, c.get("vector_dtype", "float64")))
